@@ -228,7 +228,7 @@ def _run(tier, rng, procs, big_w, t0):
                     add(f"{be}_w{s['w']}" if proc else be, be,
                         {"kind": "sched", "workers": s["w"], "persist": p, "api": api, "n": s["n"], "corder": s["corder"]},
                         {"kind": "sched", "api": api, "sched": s, "persist": p})
-    got = run_drivers(procs, jobs, timeout=80 if tier == "quick" else 1000)
+    got = run_drivers(procs, jobs, timeout=400 if tier == "quick" else 1500)   # generous: a loaded machine is not a machinery failure
     t_drivers = time.time() - t0 - t_models
 
     # ---- collect
@@ -276,14 +276,15 @@ def _run(tier, rng, procs, big_w, t0):
     # ---- negative controls (must be rejected by TLC)
     neg_conv, neg_sched = [], []
     for i, t in enumerate(list(conv_traces)):
-        if t["shape"] == "list" and len(t["res"]) >= 2 and len(neg_conv) < 6 and i % 7 == 0:
+        if t["shape"] == "list" and len(t["res"]) >= 2 and len(neg_conv) < 6 and i % 7 == 0 and conv_meta[i]["exp"] == t["res"]:
             bad = json.loads(json.dumps(t))
             bad["res"][0], bad["res"][1] = bad["res"][1] + 1, bad["res"][0]
             neg_conv.append(len(conv_traces))
             conv_traces.append(bad)
     for i, t in enumerate(list(sched_traces)):
         run0 = t["runs"][0]
-        if len(run0["out"]) >= 3 and len(run0["ev"]) == 2 * t["n"] and len(neg_sched) < 8 and i % 5 == 0:
+        if (len(run0["out"]) >= 3 and len(run0["ev"]) == 2 * t["n"] and len(neg_sched) < 8 and i % 5 == 0
+                and run0["out"] == sched_meta[i]["sched"]["out"]):
             bad = json.loads(json.dumps(t))
             if len(neg_sched) % 2 == 0:      # the caller's list in completion order instead of input order
                 bad["runs"][0]["out"] = [1000 * k for k in run0["intended"]]
@@ -311,8 +312,12 @@ def _run(tier, rng, procs, big_w, t0):
     if len(vc) != len(conv_traces) or len(vs) != len(sched_traces):
         raise MachineryError(f"verdicts not total: {len(vc)}/{len(conv_traces)} {len(vs)}/{len(sched_traces)}")
     rej = sum(vc[i] not in ("ok", "undefined") for i in neg_conv) + sum(vs[i][0] != "ok" for i in neg_sched)
-    if not neg_conv or not neg_sched or rej != len(neg_conv) + len(neg_sched):
+    if rej != len(neg_conv) + len(neg_sched):
         raise MachineryError(f"negative controls rejected: {rej}/{len(neg_conv) + len(neg_sched)}")
+    # a control can only be built from a passing trace: its absence is tolerated only when nothing passes (reported below)
+    if (not neg_conv and any(vc[i] == "ok" for i in range(len(conv_meta)))) or \
+            (not neg_sched and all(vs[i][0] == "ok" for i in range(len(sched_meta)))):
+        raise MachineryError(f"negative controls missing: {len(neg_conv)} convention, {len(neg_sched)} schedule")
 
     # ---- verdicts -> violations (grouped by stable key)
     groups, undefined = {}, 0
@@ -344,16 +349,6 @@ def _run(tier, rng, procs, big_w, t0):
     if undefined > len(conv_meta) // 3:
         raise MachineryError("too many generated calls are undefined for the built-in")
     viol = []
-    for key, items in sorted(groups.items()):
-        v, m = items[0]
-        c, r = m["call"], m["rec"]
-        kw = f", k={c['k']}" if c["haskw"] else ""
-        kinds = sorted({f"{x[0]}/{(x[1]['rec']['exc'] or {}).get('cls', '-')}" for x in items})
-        viol.append(Violation(key=key, detail=(
-            f"{len(items)} call(s) differ from the built-in [{', '.join(kinds)}]; e.g. {m['backend']}(max_workers={m['workers']}, "
-            f"persist={m['persist']}).{c['api']}({c['fn']}, {', '.join(map(str, c['its'])) if c['api'] != 'starmap' else c['its']}{kw}) "
-            f"-> {r['exc'] or r['res']}; built-in returns {r.get('builtin')}"),
-            replay={"backend": m["backend"], "workers": m["workers"], "persist": m["persist"], "call": c, "got": r}))
     sgroups = {}
     drift, realised, out_of_order, fully_observed = 0, 0, 0, 0
     nontriv = set()
@@ -382,11 +377,21 @@ def _run(tier, rng, procs, big_w, t0):
     for m, r in hangs:
         viol.append(Violation(key=f"hang:{m['kind']}:{m['backend']}", detail=f"call did not return: {m.get('call') or m.get('sched')}",
                               replay={"meta": {k: v for k, v in m.items() if k != "rec"}}))
+    for key, items in sorted(groups.items()):
+        v, m = items[0]
+        c, r = m["call"], m["rec"]
+        kw = f", k={c['k']}" if c["haskw"] else ""
+        kinds = sorted({f"{x[0]}/{(x[1]['rec']['exc'] or {}).get('cls', '-')}" for x in items})
+        viol.append(Violation(key=key, detail=(
+            f"{len(items)} call(s) differ from the built-in [{', '.join(kinds)}]; e.g. {m['backend']}(max_workers={m['workers']}, "
+            f"persist={m['persist']}).{c['api']}({c['fn']}, {', '.join(map(str, c['its'])) if c['api'] != 'starmap' else c['its']}{kw}) "
+            f"-> {r['exc'] or r['res']}; built-in returns {r.get('builtin')}"),
+            replay={"backend": m["backend"], "workers": m["workers"], "persist": m["persist"], "call": c, "got": r}))
     # ---- vacuity
     per_be = {be: sum(1 for k in nontriv if k[0] == be) for be in BACKENDS if be != "serial"}
-    if min(per_be.values()) < 10:
+    if min(per_be.values()) < 10 and not sgroups and not hangs:
         raise MachineryError(f"vacuity: out-of-order completion orders realised per backend: {per_be}")
-    if fully_observed < 0.95 * len(sched_meta):
+    if fully_observed < 0.95 * len(sched_meta) and not sgroups and not hangs:
         raise MachineryError(f"vacuity: only {fully_observed}/{len(sched_meta)} scheduled calls fully observed in the worker logs")
     samples = []
     for i, m in enumerate(sched_meta):
@@ -416,7 +421,8 @@ def _run(tier, rng, procs, big_w, t0):
            "model_drift": {"start_not_head_of_queue_as_logged": drift % 1000, "more_than_w_observed_running": drift // 1000 % 1000,
                            "other": drift // 1000000},
            "phase_s": {"tlc_models": round(t_models, 1), "drivers": round(t_drivers, 1), "trace_validation": round(time.time() - t0 - t_models - t_drivers, 1)}, "negative_controls_rejected": rej,
-           "failing_call_groups": {k: len(v) for k, v in groups.items()}, "worker_counts_random": "1..16 (threads), " + str(big_w) + " (process pools)"}
+           "failing_call_groups": {k: len(v) for k, v in groups.items()},
+           "failing_schedule_groups": {k: len(v) for k, v in sgroups.items()}, "calls_not_returning": len(hangs), "worker_counts_random": "1..16 (threads), " + str(big_w) + " (process pools)"}
     return CheckResult(coverage=cov, violations=viol, assumptions=[
         "task functions are pure, picklable, module-level functions over small integers (table in ExecConv.tla)",
         "calls on which the Python built-in itself raises carry no obligation",
